@@ -90,7 +90,7 @@ def light_fns(crate):
         for f in crate.fns:
             if f.kind == "closure" or not (f.file.endswith("parse/mod.rs") or f.file.endswith("parse/read.rs")):
                 continue
-            if (f.self_ty or "").startswith("parse::read::") and f.impl_trait:
+            if (f.self_ty or "").startswith("parse::read::") and f.impl_trait in ("parse::read::Read", "std::iter::Iterator"):
                 continue       # reader implementations are modelled by the reader hooks
             if cfg.back_edges(f):
                 continue
